@@ -116,6 +116,10 @@ Malformations(g) ==
     \cup {M("HasTransitions", ToString(s) \o ":None", SetRow(d, s, PNone)) : s \in 1..n}
     \cup {M("TupleShape", ToString(s) \o ":rowtuple", SetRow(d, s, PTuple(RowsOf(d)[s].items))) : s \in 1..n}
     \cup {M("TupleShape", ToString(s) \o ":rowstr", SetRow(d, s, PStr("ab"))) : s \in 1..n}
+    \* rows that are numbers: truthy or falsy objects without a length
+    \cup {M("TupleShape", ToString(s) \o ":rowint", SetRow(d, s, PInt(3))) : s \in 1..n}
+    \cup {M("TupleShape", ToString(s) \o ":rowfloat", SetRow(d, s, PFloat(3, 2))) : s \in 1..n}
+    \cup {M("TupleShape", ToString(s) \o ":rowzero", SetRow(d, s, PInt(0))) : s \in 1..n}
     \cup UNION {
             {M("TupleShape", ToString(sk[1]) \o "," \o ToString(sk[2]) \o ":" \o x.ty \o ToString(Len(x.items)),
                SetTrans(d, sk[1], sk[2], x))
